@@ -53,6 +53,17 @@ reg('C13', 'exploration',
     'cond > 1e8 input; transpiled form of the helpers is covered by C02/C12 '
     'code generation, not here.')
 
+reg('C19', 'exploration',
+    'numpy transcription of the statement evaluated beside the real '
+    'Integrator.compute_time_step and Solver._compute_timestep on generated '
+    'sets of real ParticleArrays refreshed by a real NNPS domain update',
+    'Held (to 1e-12 relative) on every generated array set: 1-4 arrays, some '
+    'empty or ghost-only, any subset of the criterion properties, zero / '
+    'positive / mixed values, h on both sides of 1, fixed_h on/off.',
+    'dt_adapt present but without a positive minimum is accepted as either '
+    '"keep the fixed step" or "use the criteria formula"; the h min/max '
+    'caches are as fresh as the last domain update, as in the solver loop.')
+
 _pending = {
 }
 for _i in range(1, 21):
